@@ -15,4 +15,6 @@ def check(run, replay=None):
                 "vs the placement written in the program; L2: documents lacking one field sent to compiled messages, accepted iff the "
                 "argument carries serde(default) or is an Option; non-trivial = distinct program / document")
     return msgprops.check(run, "C17", "Props/C17", THEOREMS, {"c03": True, "c17": True}, replay,
-                          translated=[("Props/C17T", THEOREMS_T), ("Props/C17P", THEOREMS_P)])
+                          translated=[("Props/C17T", THEOREMS_T), ("Props/C17P", THEOREMS_P),
+                                      ("Props/C17F", ["c17_translated_field_of_a_parameter", "c17_translated_field_is_emitted_with_its_attributes",
+                                                      "c17_translated_fields_of_a_signature"])])
